@@ -40,7 +40,7 @@ for pid in sorted(props):
             cov['discharged'], cov['obligations'], cov['vacuity_checks'], ', '.join('%s %d' % kv for kv in sorted(cov['by_backend'].items())), cov['solver_time_s']) + ', '.join(fl) + '.') + '\n')
         tb = [t for t in cov['trusted_base'] if 'trusted contract' in t]
         if tb:
-            sec.append(wrap('**Trusted contracts on /repo functions used:** ' + '; '.join(sorted(set(t.replace(' (trusted contract)', '').replace('github.com/megaease/easegress/pkg/', '') for t in tb))) + '.') + '\n')
+            sec.append(wrap('**Trusted contracts (functions of /repo) and library models used:** ' + '; '.join(sorted(set(t.replace(' (trusted contract)', '').replace('github.com/megaease/easegress/pkg/', '') for t in tb))) + '.') + '\n')
         if cov.get('inlined_callees'):
             sec.append(wrap('**Inlined (verified as part of their callers):** ' + ', '.join(sorted(x.replace('github.com/megaease/easegress/pkg/', '') for x in cov['inlined_callees'])) + '.') + '\n')
         if cov.get('bounded_checks'):
